@@ -10,6 +10,15 @@ BASELINE_OFF = ("cd /repo && env -u PYOPENAPI_GEN_VERIF /venv/bin/python -m pyte
 
 # id -> (category, technique, level text, level note, design ref)
 CHECKS = {
+    "C10": ("fault_enumeration", "runtime monitoring with fault injection: audit-hook file-system event log with an online containment policy and safety fence, before/after snapshots, stage / LINE-failpoint / ENOSPC faults",
+            "For 3 layouts x existing tree {equal, different, partially present} x force {off, on}: a fault-free run, every generation stage (load, parse, six emitters, "
+            "post-processing, diff) failing at entry and at exit, OSError(ENOSPC) at the k-th write for every k, and a sys.monitoring LINE failpoint at the statements "
+            "the fault-free run executed inside ClientGenerator.generate and the emitters (quick: every 6th, thorough: all; each a separate run). An audit hook records "
+            "every write-open / remove / rename / mkdir / rmdir / rmtree under the sandbox project root (classified by effect) and the whole root is snapshotted "
+            "(path, size, sha256, mtime_ns) before and after: without force nothing may be touched; in any mode only the output package, the core package and ancestor "
+            "__init__.py files; stage and write faults must surface as a raise. Destructive calls outside the scratch root are fenced.",
+            "Post-processing children not run (stage failed at entry); for LINE failpoints only the effect oracles apply. One small document per configuration.",
+            "DESIGN.md §4 C10"),
     "C11": ("exploration", "runtime monitoring: history workload with a fresh-interpreter import probe and needed-symbols check after every step; recording postcondition on _update_registry",
             "Histories of generate actions (client, document with a given declared error set, force on/off; with repetition and with documents changing under a "
             "client) over 3 clients into one project with a shared core at package depth 1-4. After EVERY step a fresh interpreter imports every module of every "
